@@ -138,6 +138,7 @@ def gen_history_step(rng, model: HistoryModel, tree: TreeModel, classes, swarm, 
     else:
         choices += ["undo"] * w.get("undo_empty", 1)
     choices += ["set_limit"] * w.get("set_limit", 0)
+    choices += ["api"] * w.get("api", 0) + ["clear"] * w.get("clear", 0)
     if model.redo:
         choices += ["redo"] * w.get("redo", 3) + ["redo_sel"] * w.get("redo_sel", 2)
     else:
@@ -167,6 +168,14 @@ def gen_history_step(rng, model: HistoryModel, tree: TreeModel, classes, swarm, 
                 "docs": rng.random() < 0.2}
     if k == "set_limit":
         return {"op": "set_limit", "limit": rng.choice([0, 1, 2, 3, 5, 32])}
+    if k == "clear":
+        return {"op": "clear"}
+    if k == "api":
+        # the same kinds of change, made through the resource helper API
+        op = gen.gen_op(rng, tree, classes, dict(swarm, bytes_p=0.0), None)
+        if op[0] in ("edit", "mkdir", "mkfile", "move", "remove"):
+            return {"op": "api", "call": op, "id": next_id}
+        return {"op": "undo"}
     if k == "undo_sel":
         return {"op": "undo_sel", "i": rng.randrange(len(model.undo)), "drop": rng.random() < 0.2}
     if k == "redo_sel":
@@ -214,6 +223,50 @@ def exec_history_step(world: World, model: HistoryModel, st, out=None):
             return StepResult(op, exc=e, info={"model_ok": True, "has_remove": _has_remove(rec["ops"])})
         model.do({"id": rec["id"], "desc": rec["desc"], "ops": rec["ops"]})
         return StepResult(op)
+    if op == "clear":
+        h.clear()
+        model.base = model.current()
+        model._undo, model.redo = [], []
+        return StepResult(op)
+    if op == "api":
+        call = st["call"]
+        tree = model.current()
+        try:
+            tree.apply_all([call])
+        except ModelError as e:
+            return StepResult(op, skipped=True, info={"why": str(e)})
+        k = call[0]
+        try:
+            if k == "edit":
+                cur = tree  # (after apply) -- File.write is a no-op when the text is unchanged
+                f = p.get_file(call[1])
+                if f.read() == call[2]:
+                    return StepResult(op, skipped=True, info={"why": "same text"})
+                desc = "Writing file <%s>" % call[1]
+                f.write(call[2])
+            elif k == "mkfile":
+                parent, _, name = call[1].rpartition("/")
+                desc = "Creating file <%s>" % call[1]
+                p.get_folder(parent).create_file(name)
+            elif k == "mkdir":
+                parent, _, name = call[1].rpartition("/")
+                desc = "Creating folder <%s>" % call[1]
+                p.get_folder(parent).create_folder(name)
+            elif k == "move":
+                res = p.get_resource(call[1])
+                into = bool(call[4]) if len(call) > 4 else False
+                dest_arg = call[2].rpartition("/")[0] if into and call[2].rpartition("/")[2] == res.name else call[2]
+                if os.path.isdir(p._get_resource_path(dest_arg)) and dest_arg == call[2]:
+                    return StepResult(op, skipped=True, info={"why": "destination name is a folder"})
+                desc = "Moving <%s> to <%s>" % (call[1], dest_arg)
+                res.move(dest_arg)
+            elif k == "remove":
+                desc = "Removing <%s>" % call[1]
+                p.get_resource(call[1]).remove()
+        except Exception as e:
+            return StepResult(op, exc=e, info={"model_ok": True, "has_remove": k == "remove"})
+        model.do({"id": st["id"], "desc": desc, "ops": [call]})
+        return StepResult(op, info={"api": k})
     if op == "set_limit":
         # the configured limit may change while a history exists; it is
         # enforced when the next change is recorded
@@ -338,3 +391,31 @@ def _vis(snap):
 
 def _has_remove(ops):
     return any(o[0] == "remove" for o in flat_ops(ops))
+
+
+def mirror_step(model, st):
+    """Generation-time bookkeeping: apply a generated step to the model that drives
+    further generation (execution keeps its own model)."""
+    from .model import ModelError
+    op = st["op"]
+    if op == "do":
+        model.do({"id": st["cs"]["id"], "desc": st["cs"]["desc"], "ops": st["cs"]["ops"]})
+    elif op == "set_limit":
+        model.limit = st["limit"]
+    elif op == "clear":
+        model.base = model.current()
+        model._undo, model.redo = [], []
+    elif op == "api":
+        try:
+            model.current().apply_all([st["call"]])
+            model.do({"id": st["id"], "desc": "api%d" % st["id"], "ops": [st["call"]]})
+        except ModelError:
+            pass
+    elif op in ("undo", "undo_drop") and model.undo:
+        model.undo_sel(None, drop=op == "undo_drop")
+    elif op == "undo_sel" and model.undo:
+        model.undo_sel(st["i"] % len(model.undo), drop=bool(st.get("drop")))
+    elif op == "redo" and model.redo and model.redo_feasible(None):
+        model.redo_sel(None)
+    elif op == "redo_sel" and model.redo and model.redo_feasible(st["i"] % len(model.redo)):
+        model.redo_sel(st["i"] % len(model.redo))
